@@ -8,6 +8,7 @@
 #ifndef EXOGENOUSMODEL_H
 #define EXOGENOUSMODEL_H
 
+#include <BayesFilters/AtomicFlag.h>
 #include <BayesFilters/ExogenousProcess.h>
 #include <BayesFilters/Skippable.h>
 
@@ -42,7 +43,7 @@ private:
     /**
      * Skip status.
      */
-    bool skip_ = false;
+    AtomicFlag skip_;
 };
 
 #endif /* EXOGENOUSMODEL_H */
